@@ -5,6 +5,10 @@ from bidict import bidict, ValueDuplicationError
 
 default_logger = logging.getLogger('socketio')
 
+# key under which the ACK id counter is kept in a callbacks dictionary; it is not
+# an integer, so it cannot collide with an ACK id received from the other side
+ACK_ID_COUNTER = object()
+
 
 class BaseManager:
     def __init__(self):
@@ -142,8 +146,8 @@ class BaseManager:
     def _generate_ack_id(self, sid, callback):
         """Generate a unique identifier for an ACK packet."""
         if sid not in self.callbacks:
-            self.callbacks[sid] = {0: itertools.count(1)}
-        id = next(self.callbacks[sid][0])
+            self.callbacks[sid] = {ACK_ID_COUNTER: itertools.count(1)}
+        id = next(self.callbacks[sid][ACK_ID_COUNTER])
         self.callbacks[sid][id] = callback
         return id
 
